@@ -19,13 +19,15 @@ from vp.symx import pick, canon, NoTracing
 
 MODEL = "/data/arch.yml"
 CACHE_DIR = "/home/u/.osaca/cache"
-ABSENT, EMPTY, HEADER, MID, LASTBYTE, COMPLETE, STALE = range(7)
+ABSENT, EMPTY, HEADER, MID, LASTBYTE, COMPLETE, STALE, HEADERONLY = range(8)     # HEADERONLY: complete pickle of a header-only (lazy) load
 TRUNCATED = (EMPTY, HEADER, MID, LASTBYTE)
 
 
 class FS:
-    def __init__(self, content, data_writable=True, home_creatable=True):
-        self.files = {MODEL: ("yaml", content)}      # path -> (kind, payload)
+    def __init__(self, content, data_writable=True, home_creatable=True, stem="arch"):
+        self.stem = stem                              # file name without '.yml' (may itself contain a dot)
+        self.model = "/data/%s.yml" % stem
+        self.files = {self.model: ("yaml", content)}      # path -> (kind, payload)
         self.data_writable = data_writable
         self.home_creatable = home_creatable
         self.dirs = {"/data"}
@@ -33,7 +35,7 @@ class FS:
         self.writes = []
 
     def slot(self, where, content):
-        name = ("/data/.arch_h%d.pickle" % content) if where == "companion" else ("%s/arch_h%d.pickle" % (CACHE_DIR, content))
+        name = ("/data/.%s_h%d.pickle" % (self.stem, content)) if where == "companion" else ("%s/%s_h%d.pickle" % (CACHE_DIR, self.stem, content))
         return name
 
     def put(self, where, content, state, made_for=None):
@@ -45,8 +47,14 @@ class FS:
         self.files[self.slot(where, content)] = ("pickle", (state, made_for))
 
 
-def fresh(content):
-    return {"content": content, "isa": "x86", "instruction_forms": [], "instruction_forms_dict": {}, "internal_version": MachineModel.INTERNAL_VERSION}
+def fresh(content, full=True):
+    forms = ["<form nop>"] if full else []
+    return {"content": content, "isa": "x86", "instruction_forms": list(forms), "instruction_forms_dict": ({"NOP": list(forms)} if full else {}), "internal_version": MachineModel.INTERNAL_VERSION}
+
+
+def is_full(data):
+    """the whole model was loaded (not only the header, as a lazy load does)"""
+    return len(data.get("instruction_forms") or []) == 1 and "NOP" in (data.get("instruction_forms_dict") or {})
 
 
 class CrashDuringWrite(Exception):
@@ -172,7 +180,7 @@ def install(fs):
             state, made_for = f.payload
             if state in TRUNCATED:
                 raise EOFError("Ran out of input") if state in (EMPTY, LASTBYTE) else hw.pickle.UnpicklingError("pickle data was truncated")
-            d = fresh(made_for)
+            d = fresh(made_for, full=state != HEADERONLY)
             if state == STALE:
                 d["internal_version"] = MachineModel.INTERNAL_VERSION - 1
             return d
@@ -185,7 +193,8 @@ def install(fs):
                 fs.files[f.path] = ("pickle", (st, data.get("content")))
                 raise CrashDuringWrite()
             ver_ok = data.get("internal_version") == MachineModel.INTERNAL_VERSION
-            fs.files[f.path] = ("pickle", (COMPLETE if ver_ok else STALE, data.get("content")))
+            st = (COMPLETE if ver_ok else STALE) if len(data.get("instruction_forms") or []) > 0 else HEADERONLY
+            fs.files[f.path] = ("pickle", (st, data.get("content")))
 
     class _FOS:
         W_OK = 2
@@ -233,7 +242,8 @@ def install(fs):
         def load(self, f):
             text = f if isinstance(f, str) else f.read()
             cid = int(text.split("\n", 1)[0].split(":")[1])
-            d = {"content": cid, "isa": "x86", "instruction_forms": []}
+            forms = [{"name": "nop", "operands": []}] if "- name: nop" in text else []      # a lazy load stops before the forms
+            d = {"content": cid, "isa": "x86", "instruction_forms": forms}
             return d
 
     saved = (hw.Path, hw.hashlib, hw.pickle, hw.os, getattr(hw, "open", None), MachineModel._create_yaml_object, hw.utils.CACHE_DIR, dict(MachineModel._runtime_cache))
@@ -259,6 +269,10 @@ def uninstall(saved):
 def invariant(fs):
     """every COMPLETE slot named with hash(c) holds the data parsed from content c"""
     for path, (kind, payload) in fs.files.items():
+        if kind == "pickle" and payload[0] == HEADERONLY:
+            return False         # a cache file never holds a header-only model
+        if kind == "pickle" and "_h" not in path.rsplit("/", 1)[1]:
+            return False         # a cache file whose name does not carry the content hash
         if kind == "pickle" and payload[0] == COMPLETE:
             named = int(path.rsplit("_h", 1)[1].split(".")[0])
             if payload[1] != named:
@@ -267,7 +281,7 @@ def invariant(fs):
 
 
 def construct(fs, lazy=False):
-    m = MachineModel(path_to_yaml=MODEL, lazy=lazy)
+    m = MachineModel(path_to_yaml=fs.model, lazy=lazy)
     return m._data
 
 
@@ -275,7 +289,7 @@ def _clean(d):
     return {k: v for k, v in d.items() if k in ("content", "isa", "internal_version")}
 
 
-def one_run(c_now: int, c_comp: int, c_home: int, st_comp: int, st_home: int, writable: bool, home_ok: bool, warm_runtime: bool, lazy: bool) -> bool:
+def one_run(c_now: int, c_comp: int, c_home: int, st_comp: int, st_home: int, writable: bool, home_ok: bool, warm_runtime: bool, lazy: bool, dotted: bool) -> bool:
     """
     pre: 0 <= st_comp < 7 and 0 <= st_home < 7
     post: _
@@ -290,14 +304,14 @@ def one_run(c_now: int, c_comp: int, c_home: int, st_comp: int, st_home: int, wr
     st = kf_state(feat)
     if st == "skip":
         return True
-    fs = FS(pat[0], data_writable=True if writable else False, home_creatable=True if home_ok else False)
+    fs = FS(pat[0], data_writable=True if writable else False, home_creatable=True if home_ok else False, stem="arch.v2" if dotted else "arch")
     fs.put("companion", pat[1], sc)
     fs.put("home", pat[2], sh)
     saved = install(fs)
     try:
         MachineModel._runtime_cache.clear()
         if warm_runtime:
-            MachineModel._runtime_cache[MODEL] = fresh(pat[0] + 7)     # left over from before an edit of the file
+            MachineModel._runtime_cache[fs.model] = fresh(pat[0] + 7)     # left over from before an edit of the file
         crashed = None
         try:
             data = construct(fs, lazy=True if lazy else False)
@@ -312,18 +326,19 @@ def one_run(c_now: int, c_comp: int, c_home: int, st_comp: int, st_home: int, wr
         else:
             ok = data.get("content") == pat[0] and invariant(fs)
             if not lazy:
-                ok = ok and MachineModel._runtime_cache.get(MODEL, {}).get("content") == pat[0]
+                ok = ok and is_full(data)
+                ok = ok and MachineModel._runtime_cache.get(fs.model, {}).get("content") == pat[0]
                 ok = ok and data.get("internal_version") == MachineModel.INTERNAL_VERSION
     finally:
         uninstall(saved)
     return verdict(ok, nontrivial=sc != ABSENT or sh != ABSENT,
-                   sample=lambda: {"content_classes": pat, "companion": sc, "home": sh, "data_dir_writable": writable, "home_creatable": home_ok, "lazy": lazy})
+                   sample=lambda: {"model_file": fs.model, "content_classes": pat, "companion": sc, "home": sh, "data_dir_writable": writable, "home_creatable": home_ok, "lazy": lazy})
 
 
 EVENTS = ["run", "run_crash_empty", "run_crash_mid", "run_crash_lastbyte", "edit", "racing_writer_mid", "run_lazy", "data_dir_readonly"]
 
 
-def history(e0: int, e1: int, e2: int, writable: bool) -> bool:
+def history(e0: int, e1: int, e2: int, writable: bool, dotted: bool) -> bool:
     """
     pre: 0 <= e0 < 8 and 0 <= e1 < 8 and 0 <= e2 < 8
     post: _
@@ -337,21 +352,21 @@ def history(e0: int, e1: int, e2: int, writable: bool) -> bool:
     st = kf_state(feat)
     if st == "skip":
         return True
-    fs = FS(0, data_writable=True if writable else False)
+    fs = FS(0, data_writable=True if writable else False, stem="arch.v2" if dotted else "arch")
     saved = install(fs)
     ok = True
     try:
         MachineModel._runtime_cache.clear()
         for x in ev + ["run"]:
             if x == "edit":
-                fs.files[MODEL] = ("yaml", fs.files[MODEL][1] + 1)
+                fs.files[fs.model] = ("yaml", fs.files[fs.model][1] + 1)
                 continue
             if x == "data_dir_readonly":
                 fs.data_writable = False
                 continue
             if x == "racing_writer_mid":
                 # another process is in the middle of an in-place write of the slot for the current content
-                cur = fs.files[MODEL][1]
+                cur = fs.files[fs.model][1]
                 where = "companion" if fs.data_writable else "home"
                 fs.put(where, cur, MID)
                 continue
@@ -376,12 +391,12 @@ def history(e0: int, e1: int, e2: int, writable: bool) -> bool:
             except Exception:   # noqa
                 ok = st == "relaxed"
                 break
-            if data.get("content") != fs.files[MODEL][1] or not invariant(fs):
+            if data.get("content") != fs.files[fs.model][1] or not invariant(fs) or (x != "run_lazy" and not is_full(data)):
                 ok = False
                 break
     finally:
         uninstall(saved)
-    return verdict(ok, nontrivial=True, sample={"events": ev + ["run"], "data_dir_writable": writable})
+    return verdict(ok, nontrivial=True, sample={"model_file": fs.model, "events": ev + ["run"], "data_dir_writable": writable})
 
 
 def _pickle_contract_concrete(cut):
